@@ -36,6 +36,8 @@ type World struct {
 	trustedPure    map[string]bool
 	freshOverrides map[string]*freshOverride
 	macros         map[string]*Macro
+	specConsts     map[string]string // constant strings used by spec functions: content -> ref
+	specConstList  []string
 	mutated        map[string]bool // globals assigned outside init
 	mutScan        bool
 	repo           string
@@ -53,7 +55,7 @@ func (w *World) constID(key string) int {
 func loadWorld(repo string, patterns []string) (*World, error) {
 	w := &World{contracts: map[string]*Contract{}, ghosts: map[string]*GhostVar{}, specFuncs: map[string]*SpecFunc{},
 		lemmas: map[string]*Lemma{}, constIDs: map[string]int{}, files: map[*token.File]*ast.File{},
-		srcCache: map[string][]byte{}, allPkgs: map[string]*packages.Package{}, repo: repo, trustedPure: map[string]bool{}, freshOverrides: map[string]*freshOverride{}, macros: map[string]*Macro{}}
+		srcCache: map[string][]byte{}, allPkgs: map[string]*packages.Package{}, repo: repo, trustedPure: map[string]bool{}, freshOverrides: map[string]*freshOverride{}, macros: map[string]*Macro{}, specConsts: map[string]string{}}
 	w.fset = token.NewFileSet()
 	cfg := &packages.Config{Mode: packages.LoadAllSyntax, Dir: repo, BuildFlags: []string{"-tags=verif"}, Fset: w.fset,
 		Env: append(os.Environ(), "GOFLAGS=-mod=mod", "GOPROXY=off", "GOSUMDB=off", "GOTOOLCHAIN=local")}
@@ -367,11 +369,6 @@ func (w *World) inlinable(fn *ssa.Function, depth int) bool {
 	n := 0
 	for _, b := range fn.Blocks {
 		n += len(b.Instrs)
-		for _, s := range b.Succs {
-			if s.Dominates(b) {
-				return false // loop
-			}
-		}
 		for _, ins := range b.Instrs {
 			if c, ok := ins.(*ssa.Call); ok {
 				if c.Call.StaticCallee() == fn {
